@@ -147,6 +147,9 @@ func renderRun(j renderJob, shades [][]int) *trace.Scenario {
 			}
 		}
 		wx := 7 + rng.Intn(160)
+		if rng.Intn(4) == 0 {
+			wx = []int{7, 8, 165, 166}[rng.Intn(4)] // the edges of the window's horizontal range (the statement covers WX 7-166)
+		}
 		wy := rng.Intn(144)
 		if rng.Intn(4) == 0 {
 			wy = rng.Intn(256)
@@ -170,11 +173,27 @@ func renderRun(j renderJob, shades [][]int) *trace.Scenario {
 		m.M.Write(0xff40, uint8(lcdc))
 		rb := []int{int(m.M.Read(0xff40)), int(m.M.Read(0xff43)), int(m.M.Read(0xff42)), int(m.M.Read(0xff4b)), int(m.M.Read(0xff4a)), int(m.M.Read(0xff47)), int(m.M.Read(0xff48)), int(m.M.Read(0xff49))}
 		sc.Reset = map[string]any{"vram": vram, "oam": oamv, "regs": rb, "shades": shades, "seed": j.seed, "pixels": j.pixels}
-		for i := 0; i < 17556+200; i++ {
+		// first look: the first frame after switch-on, all 144 lines drawn (V-blank has begun)
+		for i := 0; i < 16450; i++ {
 			m.P.EndMachineCycle()
 		}
 		f := m.P.Frame()
+		first := map[[2]int][4]int{}
+		for y := 0; y < 2; y++ {
+			for x := 0; x < 160; x++ {
+				c := f.RGBAAt(x, y)
+				first[[2]int{x, y}] = [4]int{int(c.R), int(c.G), int(c.B), int(c.A)}
+			}
+		}
+		// second look: the top two lines have been drawn again by the second frame
+		for i := 16450; i < 17556+200; i++ {
+			m.P.EndMachineCycle()
+		}
+		f = m.P.Frame()
 		put := func(x, y int) {
+			if v, ok := first[[2]int{x, y}]; ok {
+				sc.Ev = append(sc.Ev, []any{x, y, v[0], v[1], v[2], v[3]})
+			}
 			c := f.RGBAAt(x, y)
 			sc.Ev = append(sc.Ev, []any{x, y, int(c.R), int(c.G), int(c.B), int(c.A)})
 		}
@@ -186,7 +205,7 @@ func renderRun(j renderJob, shades [][]int) *trace.Scenario {
 			}
 			return
 		}
-		rows := map[int]bool{0: true, 143: true}
+		rows := map[int]bool{0: true, 1: true, 143: true}
 		for i := 0; i < nobj; i++ {
 			oy := oamv[4*i]
 			for _, r := range []int{oy - 17, oy - 16, oy - 13, oy - 9, oy - 8} {
